@@ -28,6 +28,30 @@ def unvendor (p : String) : String := String.ofList (unvendorC p.toList)
 
 def isWireImport (p : String) : Bool := unvendor p == "github.com/google/wire"
 
+/-- `strings.HasSuffix` -/
+def isSuffixC (s h : List Char) : Bool := isPrefixC s.reverse h.reverse
+
+/-- where the last `internal` path element of `path` starts (Go: the `switch` of `importableFrom`; a path that *is*
+    `internal` or starts with `internal/` is not treated specially there, nor here) -/
+def internalAt (path : List Char) : Option Nat :=
+  if isSuffixC "/internal".toList path then some (path.length - "internal".length)
+  else match lastIndex "/internal/".toList path with
+    | some i => some (i + 1)
+    | none => none
+
+/-- `importableFrom(path, from)` (wire.go): may the package at import path `frm` import the package at `path`
+    under Go's rule for internal packages?  Both paths are taken without their vendor prefix. -/
+def importableFromC (path frm : List Char) : Bool :=
+  let path := unvendorC path
+  let frm := unvendorC frm
+  match internalAt path with
+  | none => true
+  | some i =>
+    let parent := path.take (i - 1)
+    frm == parent || isPrefixC (parent ++ ['/']) frm
+
+def importableFrom (path frm : String) : Bool := importableFromC path.toList frm.toList
+
 /-- insertion sort on strings (Go: `sort.Strings`; bytewise = codepoint order on ASCII) -/
 def insertS (x : String) : List String → List String
   | [] => [x]
